@@ -17121,8 +17121,8 @@ type identifierOpts struct {
 func (p *parser) handleIdentifier(loc logger.Loc, e *js_ast.EIdentifier, opts identifierOpts) js_ast.Expr {
 	ref := e.Ref
 
-	// Substitute inlined constants
-	if p.options.minifySyntax && !p.currentScope.ContainsDirectEval {
+	// Substitute inlined constants (but not in "delete x", which doesn't use the value)
+	if p.options.minifySyntax && !p.currentScope.ContainsDirectEval && !opts.isDeleteTarget {
 		if value, ok := p.constValues[ref]; ok {
 			p.ignoreUsage(ref)
 			return js_ast.ConstValueToExpr(loc, value)
